@@ -7,6 +7,7 @@ import (
 	"encoding/json"
 	"fmt"
 	"os"
+	"runtime"
 	"sort"
 	"strconv"
 	"strings"
@@ -220,10 +221,24 @@ func search(t *testing.T, sc *Scenario, tier string, seed uint64) {
 	start := time.Now()
 	maxPerSig := envInt("VERIF_MAX_PER_SIG", 5)
 	perSig := map[string]int{}
+	// Tasks still blocked when a run ends (daemons, or everything in an aborted
+	// run) stay parked in their dead bubble and keep that run's world reachable. A
+	// change that makes many runs abort can therefore grow a worker without bound:
+	// past the cap the worker stops and the driver continues the chunk in a fresh
+	// process.
+	memCap := uint64(envInt("VERIF_MEM_CAP_MB", 1500)) << 20
 	for k := 0; k < count; k++ {
 		i := from + k*stride
 		if budget > 0 && time.Since(start) > budget {
 			break
+		}
+		if k > 0 && k%8 == 0 && outPath != "" && stride == 1 {
+			var ms runtime.MemStats
+			runtime.ReadMemStats(&ms)
+			if ms.Sys-ms.HeapReleased > memCap {
+				os.WriteFile(outPath+".next", []byte(fmt.Sprint(i)), 0o644)
+				break
+			}
 		}
 		g, s, f := genTapes(seed, sc.Name, i)
 		out, _ := execute(t, sc, tier, g, s, f, false)
@@ -296,9 +311,20 @@ func shrink(t *testing.T, sc *Scenario, tier string, seed uint64) {
 	}
 	cur := tapes{g.Recorded(), s.Recorded(), f.Recorded()}
 	execs := 0
+	shrinkCap := uint64(envInt("VERIF_MEM_CAP_MB", 1500)) << 20
 	test := func(tp tapes) bool {
 		if execs >= maxExec || time.Now().After(deadline) {
 			return false
+		}
+		if execs%8 == 7 {
+			// candidate runs that abort leave their tasks parked: stop shrinking
+			// (keeping what was achieved) rather than outgrow the memory cap
+			var ms runtime.MemStats
+			runtime.ReadMemStats(&ms)
+			if ms.Sys-ms.HeapReleased > shrinkCap {
+				maxExec = execs
+				return false
+			}
 		}
 		execs++
 		o, _ := execute(t, sc, tier, simrt.ReplayTape("gen", tp.Gen), simrt.ReplayTape("sched", tp.Sched), simrt.ReplayTape("fault", tp.Fault), false)
